@@ -9,9 +9,11 @@ mod faults;
 mod monitors;
 mod obs;
 mod orchestrate;
+mod policy;
 mod progs;
 mod props;
 mod reference;
+mod relations;
 mod rng;
 mod run;
 mod world;
